@@ -12,6 +12,20 @@ from .common import FIELD, MESH, REGION
 from .c01 import each, _single_return
 
 FLOOR = 40
+ANCHORS = [
+    'mesh.Mesh.subregions.setter',
+    'mesh.Mesh.is_aligned',
+    'mesh.Mesh.sel',
+    'mesh.Mesh.scale',
+    'mesh.Mesh.translate',
+    'mesh.Mesh.rotate90',
+    'mesh.Mesh.__getitem__',
+    'io._MeshIO.save_subregions',
+    'io._MeshIO.load_subregions',
+    'region.Region.to_dict',
+    'io.hdf5._MeshIO_HDF5._h5_save',
+    'io.hdf5._MeshIO_HDF5._h5_load',
+]   # functions whose code the property is anchored in (mutation analysis, evidence)
 
 
 def run(chk):
@@ -105,6 +119,7 @@ def d3_transformations(chk, repo):
                        "named subregion has that subregion as region and the parent's cell")
     geom.mesh_siblings(chk, "C14")
     c07.d3_mesh_sel(chk, repo)
+    c07.d8_wiring_and_dispatch(chk, repo)
     v = FV(repo, "mesh.Mesh.__getitem__")
     news = cm.returned_news(v, cls=MESH)
     byname = [(r, a) for r, a in news if a.get("region") is not None and v.eq(a["region"], v.spec("self.subregions[item]"))]
